@@ -265,6 +265,28 @@ var validColumnTypes = map[string]bool{
 // columnTypePattern matches valid column type definitions
 var columnTypePattern = regexp.MustCompile(`^[A-Za-z][A-Za-z0-9_ (),.]*$`)
 
+// hasTopLevelComma reports whether s contains a comma outside parentheses.
+// A column type may carry size arguments such as DECIMAL(10,2), but a comma at
+// the top level would start a further column definition inside CREATE TABLE.
+func hasTopLevelComma(s string) bool {
+	depth := 0
+	for i := 0; i < len(s); i++ {
+		switch s[i] {
+		case '(':
+			depth++
+		case ')':
+			if depth > 0 {
+				depth--
+			}
+		case ',':
+			if depth == 0 {
+				return true
+			}
+		}
+	}
+	return false
+}
+
 // sanitizeColumnType validates a column type definition
 func sanitizeColumnType(colType string) (string, error) {
 	if colType == "" {
@@ -275,7 +297,7 @@ func sanitizeColumnType(colType string) (string, error) {
 	upperType := strings.ToUpper(strings.TrimSpace(colType))
 
 	// Check against pattern to prevent injection
-	if !columnTypePattern.MatchString(colType) {
+	if !columnTypePattern.MatchString(colType) || hasTopLevelComma(colType) {
 		return "", fmt.Errorf("invalid column type: %s", colType)
 	}
 
